@@ -18,6 +18,7 @@ import (
 //     a CALL-family instruction than before it;
 //   - nothing observable changes between a STATICCALL instruction and the next step of the frame
 //     that issued it;
+//
 // and it reconstructs the frame tree (which frames ended in an error or revert) to count the
 // effects that had to be undone and to sum the value burnt by SELFDESTRUCT-to-self in frames
 // that survived.
@@ -31,8 +32,8 @@ type frameRec struct {
 	sstores, logs, xfers, creates, suicides, writebacks int
 	selfBurn                                            *big.Int
 	// the child that ran during the last call-family instruction
-	child       *childEnd
-	wantCreated bool
+	child                            *childEnd
+	wantCreated                      bool
 	kidsReturned, staticKidsReturned int
 }
 
